@@ -11,14 +11,15 @@ from ..astutil import walk_local, stores, parent, ancestors
 from . import c07, c09, c06
 
 META = dict(
-    text="Structural necessary conditions (N) plus two exact clauses (P): (R1) the list of selected cards is only ever appended "
-         "to, every append is dominated by a test that the card is not among the cards selected earlier, and the walk restarts at "
-         "the first card of the sorted order with a strictly increasing index (so no card is selected twice and every contest "
-         "gets the first cards of its order in a continued round exactly as in a redrawn one); (R2, P) confirmation is sticky; "
+    text="Structural necessary conditions (N) plus two exact clauses (P): (R1) the selection is a set initialised with the earlier "
+         "rounds' cards that only grows, the walk restarts at the first card of the sorted order with a strictly increasing index, "
+         "and the reported sample is the sorted order filtered by membership in that set (so no card is reported twice, every "
+         "contest's cards keep their relative order from round to round, and a continued round equals a redrawn one); (R2, P) confirmation is sticky; "
          "(R3, P) under random order every test's overall p-value is the minimum over the history, so appending observations "
          "cannot raise it (with C05: old entries are unchanged); (R4, P by form) data order is preserved.",
     note="Not decided: that a from-scratch redraw with larger sizes is a superset (follows from C07 by hand) and the numeric "
-         "monotonicity of the measured risk. D4 (continuation used a count as a position) was repaired with a fix: commit.",
+         "monotonicity of the measured risk. D4 (continuation used a count as a position) and D16 (continued rounds appended new "
+         "cards, breaking the per-contest order from the third round on) were repaired with fix: commits.",
     technique="append-uniqueness obligation (dominating membership test), who-may-write on the list, reuse of C07/C09/C11/C06 rules",
 )
 
@@ -34,52 +35,35 @@ def run(chk):
     fn, w = f["fn"], f["while"]
     where = W("CVR.consistent_sampling")
     lst = "sampled_cvr_indices"
-    # who may write the list: only append (+ the None-initialisation)
+    sel = f["selected"]
+    # (a) the selection starts as the set of the earlier rounds' cards ...
+    inits = [s for s in fn.body if isinstance(s, ast.Assign) and sel and norm(s.targets[0]) == sel and s.lineno < w.lineno]
+    ok_init = len(inits) == 1 and norm(inits[0].value) in (f"set({lst})", f"set({lst}or[])", f"{{*{lst}}}")
+    none_norm = [s for s in fn.body if isinstance(s, ast.If) and norm(s.test) in (f"{lst}isNone", f"not{lst}") and s.lineno < (inits[0].lineno if inits else 0)]
+    ok_none = bool(none_norm) and all(norm(x) == f"{lst}=[]" for x in none_norm[0].body) and not none_norm[0].orelse
+    chk.ob("C10.R1", where, "selection-starts-with-earlier-cards", ok_init and (ok_none or "or[]" in norm(inits[0].value) if inits else False),
+           "the set of selected cards is initialised with the cards selected in earlier rounds (empty when none were supplied)",
+           node=inits[0] if inits else fn, strength="N", init=norm(inits[0].value) if inits else None)
+    # ... and only ever grows
     bad = []
-    for t, v, s in stores(fn):
-        if norm(t) == lst:
-            guard = parent(s)
-            ok_init = isinstance(v, ast.List) and not v.elts and isinstance(guard, ast.If) and norm(guard.test) in (f"{lst}isNone", f"not{lst}")
-            if not ok_init:
-                bad.append(norm(s)[:80])
-        elif isinstance(t, ast.Subscript) and norm(t.value) == lst:
-            bad.append(norm(s)[:80])
     for c in walk_local(fn):
-        if isinstance(c, ast.Call) and isinstance(c.func, ast.Attribute) and norm(c.func.value) == lst and c.func.attr not in ("append", "copy", "index", "count"):
+        if isinstance(c, ast.Call) and isinstance(c.func, ast.Attribute) and sel and norm(c.func.value) == sel \
+                and c.func.attr in ("remove", "discard", "pop", "clear", "difference_update", "intersection_update", "symmetric_difference_update"):
             bad.append(norm(c)[:80])
-    chk.ob("C10.R1", where, "earlier-cards-kept", not bad,
-           "the list of selected cards is only ever appended to (initialised to [] only when none was supplied): earlier rounds' cards stay, in place",
-           node=fn, strength="N", other_writes=bad)
-    # append uniqueness
-    apps = [c for c in walk_local(fn) if isinstance(c, ast.Call) and norm(c.func) == f"{lst}.append"]
-    chk.need("C10.R1", len(apps), 1, "append to the list of selected cards")
-    # snapshot sets of the earlier selection
-    snaps = {}
-    for st in fn.body:
-        if isinstance(st, ast.Assign) and isinstance(st.targets[0], ast.Name) and st.lineno < w.lineno \
-                and norm(st.value) in (f"set({lst})", f"frozenset({lst})", f"{{*{lst}}}"):
-            snaps[st.targets[0].id] = st
+    for t, v, s in stores(fn):
+        if sel and norm(t) == sel and s not in inits:
+            bad.append(norm(s)[:80])
+    chk.ob("C10.R1", where, "earlier-cards-kept", not bad and sel is not None,
+           "nothing is ever removed from the set of selected cards and it is never rebound: each round's cards contain the previous round's",
+           node=fn, strength="N", removals=bad)
+    # (b) reported once each, in sample-number order: the order of a contest's cards never changes between rounds
+    c07.result_rule(chk, f, "C10.R1")
+    # (c) the walk restarts at the first card of the order (a count of selected cards is not a position in the order)
     starts0 = [s for s in fn.body if isinstance(s, ast.Assign) and norm(s.targets[0]) == f["inx"] and s.lineno < w.lineno]
     start_ok = len(starts0) == 1 and norm(starts0[0].value) == "0"
-    for k, a in enumerate(apps):
-        val = norm(a.args[0])
-        dominated = False
-        for anc in ancestors(a):
-            if anc is w:
-                break
-            if isinstance(anc, ast.If):
-                in_body = any(x is a for s in anc.body for x in ast.walk(s))
-                t = anc.test
-                tests = t.values if isinstance(t, ast.BoolOp) and isinstance(t.op, ast.And) else [t]
-                for tt in tests:
-                    if isinstance(tt, ast.Compare) and len(tt.ops) == 1 and isinstance(tt.ops[0], ast.NotIn) and in_body:
-                        if norm(tt.left) == val and norm(tt.comparators[0]) in set(snaps) | {lst}:
-                            dominated = True
-        chk.ob("C10.R1", where, "append-uniqueness", dominated and start_ok and val == f["card_index"],
-               "the appended index is the current card of a walk that starts at position 0 with a strictly increasing index, and the "
-               "append is dominated by a test that this index is not among the cards selected in earlier rounds: no card is selected twice",
-               node=a, strength="N", appended=val, dominated_by_membership_test=dominated, walk_starts_at_0=start_ok,
-               walk_start=norm(starts0[-1].value) if starts0 else None)
+    chk.ob("C10.R1", where, "walk-restarts-at-first-card", start_ok,
+           "in a continued round the walk starts again at position 0 of the sorted order, so counts and thresholds are recomputed exactly "
+           "as a fresh draw computes them", node=starts0[-1] if starts0 else fn, strength="N", walk_start=norm(starts0[-1].value) if starts0 else None)
     # strictly increasing walk index and thresholds recomputed as in a fresh draw: C07.R1/R3
     chk.borrow(c07.r1, {"C07.R1": "C10.R1"}, f)
     f2 = c07.sampling_facts(chk)
